@@ -626,16 +626,33 @@ class REPEX_state:
         # high-acceptance moves
         for i in range(n):
             scaled_arr[i, :] /= np.max(scaled_arr[i, :])
-        for i in range(n):
-            rows = [r for r in range(n) if r != i]
-            sub_arr = scaled_arr[rows, :]
-            for j in range(n):
-                if scaled_arr[i][j] == 0:
-                    continue
-                columns = [r for r in range(n) if r != j]
-                M = sub_arr[:, columns]
-                f = self.fast_glynn_perm(M)
-                out[i][j] = f * scaled_arr[i][j]
+
+        def weighted_minors():
+            for i in range(n):
+                rows = [r for r in range(n) if r != i]
+                sub_arr = scaled_arr[rows, :]
+                for j in range(n):
+                    out[i][j] = 0
+                    if scaled_arr[i][j] == 0:
+                        continue
+                    columns = [r for r in range(n) if r != j]
+                    M = sub_arr[:, columns]
+                    f = self.fast_glynn_perm(M)
+                    out[i][j] = f * scaled_arr[i][j]
+            return np.sum(out, axis=1), np.sum(out, axis=0)
+
+        sum_rows, sum_cols = weighted_minors()
+        # Every row and column sum equals the permanent of the scaled
+        # matrix. If they disagree, the Glynn sums lost their digits to
+        # cancellation (several paths with one dominating weight in the
+        # same ensemble). P is invariant under row and column scaling, so
+        # balance the matrix (Sinkhorn iterations) and evaluate again.
+        sums = np.append(sum_rows, sum_cols)
+        if not np.allclose(sums, sums[0], rtol=1e-13, atol=0):
+            for _ in range(50):
+                scaled_arr /= np.sum(scaled_arr, axis=0, keepdims=True)
+                scaled_arr /= np.sum(scaled_arr, axis=1, keepdims=True)
+            weighted_minors()
         return out / max(np.sum(out, axis=1))
 
     def random_prob(self, arr, n=10_000):
